@@ -221,6 +221,32 @@ func c12Exec(cs c12Case) (*fw.Violation, *harness.Client) {
 			feed([]byte("HTTP/1.1 400 Bad Request\r\nContent-Length: 0\r\n\r\n"))
 		case "push-promise":
 			feed(peer.Frame{Type: peer.TPushPromise, Stream: s1, Flags: peer.FEndHeaders, Payload: []byte{0, 0, 0, 2, 0x82}}.Bytes())
+		case "goaway-covering-then-new-connection-then-close":
+			// graceful rotation: GOAWAY covers both requests in flight and the server keeps the connection open
+			// without answering yet; the next request needs a new connection; then the user closes the client:
+			// Close must end what is in flight on the old connection too, and nothing of either may be left
+			feed(peer.GoAway(s3, 0, "").Bytes())
+			c3 := h.Go(harness.ReqSpec{Tag: "five", Method: "GET", Path: "/five"})
+			calls = append(calls, c3)
+			sc := h.Conns[len(h.Conns)-1]
+			if sc.Idx == 0 {
+				return mk("stream-opened-after-goaway", shape, "a request issued after GOAWAY did not go to a new connection"), h
+			}
+			if len(sc.Order) > 0 {
+				h.Send(sc.Idx, sc.RespFrames(sc.Order[0], []ref.Field{{Name: ":status", Value: "200"}}, nil, nil, [][]byte{[]byte("five-body")}, -1)...)
+			}
+			if !c3.Done || c3.Err != nil || string(c3.Body) != "five-body" {
+				return mk("request-on-new-connection-not-served", shape, fmt.Sprintf("after GOAWAY on the first connection, a new request answered on the second gave done=%v err=%v body=%q", c3.Done, c3.Err, c3.Body)), h
+			}
+			h.CloseClient()
+			for _, c := range calls {
+				if !c.Done {
+					return mk("close-leaves-request-unresolved", shape, fmt.Sprintf("request %q, in flight on the connection the server said GOAWAY on, is still unresolved after Client.Close returned", c.Tag)), h
+				}
+			}
+			if live := h.S.LiveNames(); len(live) > 0 {
+				return mk("goroutine-left-behind", shape+" "+live[0], fmt.Sprintf("after Client.Close: %v still alive", live)), h
+			}
 		case "silence":
 			// nothing: only the timers can end the requests
 		case "late-response-after-timeout":
@@ -482,7 +508,7 @@ func runC12(c *fw.Ctx) {
 		do(c12Case{Family: "mutate", Mut: m})
 	}
 	c.Family("mutate")
-	for _, n := range []string{"rst-one", "rst-refused", "goaway-0", "goaway-1-then-finish", "goaway-error-mid-response", "oversized-frame", "garbage", "push-promise", "silence", "late-response-after-timeout", "window-update-overflow", "settings-invalid", "headers-on-unknown-stream", "data-before-headers", "ping-flood", "early-response-to-blocked-upload", "early-reset-of-blocked-upload", "not-reading-ping-flood", "not-reading-settings-flood"} {
+	for _, n := range []string{"rst-one", "rst-refused", "goaway-0", "goaway-1-then-finish", "goaway-error-mid-response", "goaway-covering-then-new-connection-then-close", "oversized-frame", "garbage", "push-promise", "silence", "late-response-after-timeout", "window-update-overflow", "settings-invalid", "headers-on-unknown-stream", "data-before-headers", "ping-flood", "early-response-to-blocked-upload", "early-reset-of-blocked-upload", "not-reading-ping-flood", "not-reading-settings-flood"} {
 		do(c12Case{Family: "hostile", Name: n})
 	}
 	c.Family("hostile")
@@ -510,7 +536,7 @@ func runC12(c *fw.Ctx) {
 	for cut := 0; cut <= total; cut += step {
 		do(c12Case{Family: "cut", Cut: cut, NoTimeout: true})
 	}
-	for _, n := range []string{"goaway-0", "goaway-error-mid-response", "oversized-frame", "garbage", "push-promise", "window-update-overflow", "settings-invalid"} {
+	for _, n := range []string{"goaway-0", "goaway-error-mid-response", "goaway-covering-then-new-connection-then-close", "oversized-frame", "garbage", "push-promise", "window-update-overflow", "settings-invalid"} {
 		do(c12Case{Family: "hostile", Name: n, NoTimeout: true})
 		do(c12Case{Family: "hostile", Name: n, NoTimeout: true, Streamed: true})
 	}
